@@ -41,7 +41,7 @@ def mk_dumper(it, cls_name='PathDumper', options=None, stub=()):
     for m in stub:
         d.attrs[m] = ufunc(m, pure=False)
     from contracts.common import havoc_mutable_scalars
-    d.havocked = havoc_mutable_scalars(it, d)
+    d.havocked = havoc_mutable_scalars(it, d, containers=True)
     d.out = out
     d.init_events = init_events
     return d
